@@ -8,14 +8,14 @@ CFG = {
                      "theories/Formats/StlProofs.v", "theories/Formats/Pts.v", "theories/Formats/PtsProofs.v",
                      "theories/Formats/Splat.v", "theories/Formats/Spz.v", "theories/Formats/PlyRead.v",
                      "theories/Formats/PrefixProofs.v", "theories/Formats/PrefixCost.v",
-                     "theories/Formats/PrefixSurplus.v"],
-    "level_text": "Coq theorems, one per format, for every file and every cut: binary STL (every strict prefix rejected), "
+                     "theories/Formats/PrefixSurplus.v", "theories/Formats/PrefixAll.v", "theories/Formats/PrefixChunked.v"],
+    "level_text": "Coq theorems for every file and every cut, packaged as prefix_all_formats (error, or only trailing framing cut and the identical result; .splat exactly the complete records), no_placeholder_all_formats derived from it, and reader independence (run_chunked_eq_run: a decoder written over the read-exactly-n primitive depends only on the byte sequence, for any chunking; PLY binary, STL, .splat models are such programs); per format: binary STL (every strict prefix rejected), "
                   ".splat (a k-byte prefix yields exactly the k/32 splats wholly present, error iff k mod 32 <> 0), SPZ "
                   "(every strict prefix of the inflated stream rejected; gzip as a hypothesis), PLY binary and ASCII "
                   "(threshold theorem: below the end of the promised data every cut is EOF, at or above it the identical "
                   "mesh; vertex-line token cuts; header line cuts), PTS (token level), no-placeholder corollaries and "
                   "record-read cost bounds (STL, .splat); tied to the code by decoding EVERY strict prefix of generated "
-                  "files with the real decoders in child processes (deadline, memory cap) and judging each observation "
+                  "files with the real decoders in child processes (deadline, memory cap), each decode repeated with seven kinds of io.Reader (in-memory with Len, opaque, one-byte, half, data-with-EOF; the result must not depend on it), and judging each observation "
                   "with a direct oracle (prop_ok) and against the models' decode of the same prefix (corr_ok)",
     "level_note": "Trusted: Coq kernel + vm_compute; compress/gzip (prefix-monotone inflate: hypothesis of prefix_spz, "
                   "also used by the harness to compute how much plaintext a compressed prefix yields) and strconv are "
